@@ -397,6 +397,8 @@ class World:
         }
         if spec.get("fleet_id"):
             row["fleet_id"] = spec["fleet_id"]
+        if spec.get("allows_pooling"):
+            row["allows_pooling"] = "true"  # the request file's optional column
         return row
 
     def generators(self, instructions) -> Tuple[InstructionGenerator, ...]:
